@@ -137,6 +137,7 @@ class Fn:
         self.node = node
         self.sig = SIGS[key]
         self.env = {}            # python name -> static type
+        self.recursive = False   # the method calls itself (on another object)
         self.lines = []
         self.ntmp = 0
         self.uses_floor = False
@@ -276,6 +277,8 @@ class Fn:
                 return self.bindm(ind, 'pyModI %s %s' % (a, b)), 'int'
             if op is ast.Div:
                 return self.bindm(ind, 'pyDivI %s %s' % (self.cast(a, ta), b)), 'pyf'
+            if op is ast.FloorDiv:
+                return self.bindm(ind, 'pyFloorDivI %s %s' % (a, b)), 'int'
             raise Untranslatable('int operator %s' % op.__name__)
         if scal(ta) and scal(tb):
             rty = 'npf' if 'npf' in (ta, tb) else 'pyf'
@@ -299,6 +302,8 @@ class Fn:
             return '(arrRSubS %s %s)' % (self.cast(a, ta), b), 'arr'
         if ta == tb == 'arr' and op is ast.Sub:
             return self.bindm(ind, 'arrSub %s %s' % (a, b)), 'arr'
+        if ta == tb == 'mat' and op is ast.MatMult:
+            return self.bindm(ind, 'npMatmul %s %s' % (a, b)), 'mat'
         if ta == tb == 'list' and op is ast.Add:
             return '(listAdd %s %s)' % (a, b), 'list'
         if ta == 'list' and tb == 'int' and op is ast.Mult:
@@ -394,6 +399,11 @@ class Fn:
 
     def subscript(self, ind, e):
         a, ta = self.ex(ind, e.value)
+        if ta == 'mat' and isinstance(e.slice, ast.Slice):
+            sp = self.slice_parts(ind, e.slice)
+            if sp == 'rev':
+                raise Untranslatable('reversed matrix')
+            return '(slice %s %s %s)' % (a, sp[0], sp[1]), 'mat'      # rows lo:hi
         if ta not in SEQS:
             raise Untranslatable('subscript of a %r' % ta)
         if isinstance(e.slice, ast.Slice):
@@ -533,6 +543,18 @@ class Fn:
                     if tr != 'int' or tc != 'int':
                         raise Untranslatable('np.zeros shape')
                     return self.bindm(ind, 'npZeros2 %s %s' % (r, c)), 'mat'
+                if (f.attr == 'tile' and len(e.args) == 2 and not kws and isinstance(e.args[0], ast.Call)
+                        and isinstance(e.args[0].func, ast.Attribute) and isinstance(e.args[0].func.value, ast.Name)
+                        and e.args[0].func.value.id == 'np' and e.args[0].func.attr == 'identity'
+                        and len(e.args[0].args) == 1 and not e.args[0].keywords
+                        and isinstance(e.args[1], ast.Tuple) and len(e.args[1].elts) == 2
+                        and isinstance(e.args[1].elts[1], ast.Constant) and e.args[1].elts[1].value == 1):
+                    # np.tile(np.identity(n), (R, 1)): R copies of the n x n identity stacked vertically
+                    n_, tn = self.ex(ind, e.args[0].args[0])
+                    r_, tr = self.ex(ind, e.args[1].elts[0])
+                    if tn != 'int' or tr != 'int':
+                        raise Untranslatable('np.tile(np.identity(..), ..) arguments')
+                    return self.bindm(ind, 'npTileIdentity %s %s' % (n_, r_)), 'mat'
                 if f.attr == 'insert' and len(e.args) == 3 and not kws:
                     a, ta = self.ex(ind, e.args[0])
                     i, ti = self.ex(ind, e.args[1])
@@ -569,6 +591,23 @@ class Fn:
                     raise Untranslatable('mutating method self.%s used as a value' % f.attr)
                 call, _ = self.method_call(ind, key, 'self_', e.args, kws)
                 return self.bindm(ind, call), sig['ret']
+            if (isinstance(v, ast.Name) and v.id in self.env and v.id != 'self' and self.env[v.id] == 'self'
+                    and [k for k in ORDER if py_name(k) == f.attr]):
+                keys = [k for k in ORDER if py_name(k) == f.attr]
+                key = keys[0]
+                sig = SIGS[key]
+                if len(keys) != 1 or sig['mut'] != 'self' or sig['ret'] in (None, 'self'):
+                    raise Untranslatable('call of .%s on a local BSplineBasis' % f.attr)
+                recv = lname(v.id)
+                call, _ = self.method_call(ind, key, recv, e.args, kws)
+                if key == self.key:
+                    # recursion: the definition gets a fuel parameter (Python's recursion limit)
+                    self.recursive = True
+                    call = call.replace(lean_name(key) + ' ', lean_name(key) + '_fuel fuel ', 1)
+                    self.calls.discard(key)
+                n = self.tmp()
+                self.emit(ind, 'let (%s, %s) ← %s' % (recv, n, call))
+                return n, sig['ret']
             a, ta = self.ex(ind, v)
             if f.attr == 'astype' and ta == 'arr' and len(e.args) == 1 and isinstance(e.args[0], ast.Name) and e.args[0].id == 'float':
                 return a, 'arr'
@@ -672,6 +711,10 @@ class Fn:
                     tgt(n.target)
                 elif isinstance(n, ast.For):
                     tgt(n.target)
+                elif (isinstance(n, ast.Call) and isinstance(n.func, ast.Attribute) and isinstance(n.func.value, ast.Name)
+                      and n.func.value.id != 'self' and self.env.get(n.func.value.id) == 'self'
+                      and any(py_name(k) == n.func.attr and SIGS[k]['mut'] == 'self' for k in ORDER)):
+                    add(n.func.value.id)
                 elif isinstance(n, ast.Expr) and isinstance(n.value, ast.Call) and isinstance(n.value.func, ast.Attribute):
                     f = n.value.func
                     if f.attr in ('append', 'sort') and isinstance(f.value, ast.Name):
@@ -1107,6 +1150,17 @@ class Fn:
         for p in getattr(self, 'boolparams', ()):
             pass
         floor = ' [FloorRing K]' if self.uses_floor else ''
+        if self.recursive:
+            # a method that calls itself: structural recursion on a fuel counter; the public definition
+            # starts with Python's default recursion limit (RecursionError is a RuntimeError)
+            tys = [b.strip('()').split(' : ')[1] for b in binders]
+            names = [b.strip('()').split(' : ')[0] for b in binders]
+            head = ('def %s_fuel%s : ℕ → %s → PyM (%s)\n  | 0, %s => throw .runtime\n  | fuel + 1, %s => do' % (
+                lean_name(self.key), floor, ' → '.join(tys), ret_lean_type(sig), ', '.join('_' for _ in names), ', '.join(names)))
+            body = '\n'.join('  ' + ln for ln in self.lines)
+            wrap = ('\n\n/-- `BSplineBasis.%s` with the interpreter\'s recursion limit. -/\ndef %s%s %s : PyM (%s) :=\n  %s_fuel 1000 %s' % (
+                py_name(self.key), lean_name(self.key), floor, ' '.join(binders), ret_lean_type(sig), lean_name(self.key), ' '.join(names)))
+            return head + '\n' + body + wrap
         head = 'def %s%s %s : PyM (%s) := do' % (lean_name(self.key), floor, ' '.join(binders), ret_lean_type(sig))
         return head + '\n' + body
 
